@@ -7,13 +7,16 @@
 _PAT = fam("i2.pat", 4000, 60000)
 _MATCH = fam("i2.match", 3000, 50000)
 _NEWRULE = fam("i2.newrule", 4000, 60000)
+# i2.textmatch : rule TEXT + request -> Go NewNetworkRule + Match vs complete parser model + Match over modelPat vs
+#                specMatchNoShortcut (modifiers as set membership + documented mask language, no shortcut test)
+_TEXTMATCH = fam("i2.textmatch", 3000, 50000)
 
 PROPS = {
-    "C03": {"families": [_PAT, _MATCH]},
-    "C04": {"families": [_PAT, _MATCH, _NEWRULE]},
-    "C05": {"families": [_MATCH]},
+    "C03": {"families": [_PAT, _MATCH, _TEXTMATCH]},
+    "C04": {"families": [_PAT, _MATCH, _NEWRULE, _TEXTMATCH]},
+    "C05": {"families": [_MATCH, _TEXTMATCH]},
     "C10": {"families": [_NEWRULE]},
-    "C12": {"families": [_NEWRULE]},
+    "C12": {"families": [_NEWRULE, _TEXTMATCH]},
     "C18": {"families": [_NEWRULE]},
 }
 
